@@ -35,8 +35,8 @@ func Main(c *run.Ctx) {
 		"distinct key = query shape × range class × step class; violations are minimised and signed with the minimal failing shape")
 	c.Assume("bucket = floor(ts/range)·range; the bucket starting exactly at the window end (qryn evaluates one whole bucket beyond an aligned end) is not judged; series identity ignores the unwrapped label")
 	c.Assume("floats compared with relative tolerance 1e-9")
-	total := c.Pick(1200, 60000)
-	per := c.Pick(600, 5000)
+	total := c.Pick(4000, 100000)
+	per := c.Pick(1000, 5000)
 	c07.RunChildren(c, "C08", total, per)
 	c.Floor("queries compared at the SQL boundary", total/4, 0)
 	c.Floor("queries compared after the Go post-processors", total/2, 0)
